@@ -83,9 +83,15 @@ func pathCase(id int, seed int64, out *json.Encoder) {
 		e.Op, e.ID, e.BF, e.N = "path", id, int(bf), len(present)
 		out.Encode(e)
 	}
+	legacy := root.NodeFormat == string(mast.V1Marshaler) && rng.Intn(2) == 0
 	open := func() *mast.Mast {
+		r := *root
+		if legacy {
+			// a root record written before node formats were named: no NodeFormat field, JSON nodes
+			r.NodeFormat = ""
+		}
 		st.begin()
-		h, err := root.LoadMast(ctx, cfg)
+		h, err := r.LoadMast(ctx, cfg)
 		sev := st.end()
 		if err != nil {
 			panic(err)
